@@ -64,6 +64,6 @@ ASSUME = ['the server answers the requests of one connection in order (HTTP/1.1 
           'a connection closed by the server right after an answer may leave the next request on it unanswered (the server never saw it): such batches are outside the model and only the "own response" clause is checked for them']
 
 def run(tier):
-    return core.standard_run(PROP, tier, MODULES, THEOREMS, gen, oracle, classify, RULE, ASSUME, driver=('drv_live', drivers.LIVE_SOURCES))
+    return core.standard_run(PROP, tier, MODULES, THEOREMS, gen, oracle, classify, RULE, ASSUME, driver=('drv_live', drivers.LIVE_SOURCES), retry=2)
 def replay(path):
     return core.standard_replay(PROP, path, oracle, driver=('drv_live', drivers.LIVE_SOURCES))
